@@ -39,6 +39,7 @@ Inductive tag : Type :=
   (* index creation / removal *)
   | TIdxNew           (* BTree::new / BM25::new / Hnsw::new: PUT(overwrite) the empty index metadata *)
   | TBackfill         (* volatile: insert every existing document *)
+  | TIdxFlush         (* index.flush(): the backfilled index is made durable BEFORE it is registered *)
   | TRegister         (* volatile: metadata.*_indexes.insert(name) *)
   | TUnregister       (* volatile: metadata.*_indexes.remove(name) + drop the in-memory index *)
   | TMetaNow          (* store_metadata_unclaimed: PUT(CAS) meta.cbor *)
@@ -58,7 +59,7 @@ Definition tag_eqb (a b : tag) : bool :=
   | TRegisterHandle, TRegisterHandle | TOpenFlush, TOpenFlush
   | TRemoveImages, TRemoveImages | TFetchCurrent, TFetchCurrent
   | TRemoveCurrent, TRemoveCurrent | TInsertCurrent, TInsertCurrent
-  | TBitmapDrop, TBitmapDrop | TIdxNew, TIdxNew | TBackfill, TBackfill
+  | TBitmapDrop, TBitmapDrop | TIdxNew, TIdxNew | TBackfill, TBackfill | TIdxFlush, TIdxFlush
   | TRegister, TRegister | TUnregister, TUnregister | TMetaNow, TMetaNow
   | TIdxDrop, TIdxDrop | TExtSet, TExtSet => true
   | _, _ => false
